@@ -7,7 +7,7 @@ From ZV Require Import Recover.Consts Recover.Path Recover.ProofsWal Recover.Pro
 Import ListNotations.
 Open Scope N_scope.
 
-Lemma inv_step : forall c s ev s', fixed c -> Inv c s -> window_ok c s -> step c s ev = Ok s' -> Inv c s'.
+Lemma inv_step : forall c s ev s', fixed c -> Inv c s -> (ev = EvPgBefore 4 -> window_ok c s) -> step c s ev = Ok s' -> Inv c s'.
 Proof.
   intros c s ev s' Hfx HI SW H. destruct ev.
   - eapply step_rd_begin; eauto.
@@ -38,7 +38,7 @@ Proof.
   - eapply step_sn_released; eauto.
   - eapply step_sn_updated; eauto.
   - eapply step_sn_compacted; eauto.
-  - eapply step_pg_before; eauto.
+  - eapply step_pg_before; eauto. intros ->. apply SW. reflexivity.
   - eapply step_pg_after; eauto.
   - eapply step_crash; eauto.
   - eapply step_rc_fresh; eauto.
@@ -50,12 +50,12 @@ Proof.
   - eapply step_rc_replay; eauto.
 Qed.
 
-(* the schedule hypothesis along a run: in every state that is left by a step, fewer snapshot goroutines than
-   snap files the purge keeps (>= 2) are between "snap file written" and "WAL marker written" *)
+(* the schedule hypothesis along a run: whenever the snap directory purge decides to remove a file, fewer snapshot
+   goroutines than snap files it keeps (>= 2) are between "snap file written" and "WAL marker written" *)
 Fixpoint sched_ok (c : config) (s : state) (evs : list event) : Prop :=
   match evs with
   | [] => True
-  | e :: t => window_ok c s /\ match step c s e with Ok s' => sched_ok c s' t | Err _ => True end
+  | e :: t => (e = EvPgBefore 4 -> window_ok c s) /\ match step c s e with Ok s' => sched_ok c s' t | Err _ => True end
   end.
 
 Lemma inv_run : forall c evs s s', fixed c -> Inv c s -> sched_ok c s evs -> run c s evs = Ok s' -> Inv c s'.
@@ -135,14 +135,15 @@ Qed.
 Fixpoint sched_okb (c : config) (s : state) (evs : list event) : bool :=
   match evs with
   | [] => true
-  | e :: t => Nat.ltb (win_count (sns s)) (eff_keep_snap c) && match step c s e with Ok s' => sched_okb c s' t | Err _ => true end
+  | e :: t => (match e with EvPgBefore 4 => Nat.ltb (win_count (sns s)) (eff_keep_snap c) | _ => true end)
+              && match step c s e with Ok s' => sched_okb c s' t | Err _ => true end
   end.
 
 Lemma sched_okb_ok : forall c evs s, sched_okb c s evs = true -> sched_ok c s evs.
 Proof.
   induction evs as [|e t IH]; intros s H; simpl in *; auto.
   apply andb_true_iff in H. destruct H as [H1 H2]. split.
-  - unfold window_ok. apply Nat.ltb_lt. exact H1.
+  - intros ->. unfold window_ok. apply Nat.ltb_lt. exact H1.
   - destruct (step c s e); auto.
 Qed.
 
